@@ -62,6 +62,9 @@ EXTRA_PIPES["picker-reducer"] = {"roots": {"x": ["i"]}, "sizes": S2, "funcs": [
     _f("f", ["x"], {"x": ["i"]}, ["i"], [], ["y"]), {**_f("g", ["y"], None, [], [], ["a", "b"]), "picker": True}]}
 EXTRA_PIPES["one-tuple-reducer"] = {"roots": {"x": ["i"]}, "sizes": S2, "funcs": [
     _f("f", ["x"], {"x": ["i"]}, ["i"], [], ["y"]), {**_f("g", ["y"], None, [], [], ["s"]), "one_tuple": True}]}
+# a function without MapSpec whose single output is a Python list, consumed whole by a mapped function's sibling
+EXTRA_PIPES["list-valued-output"] = {"roots": {"x": ["i"]}, "sizes": S2, "funcs": [
+    {**_f("f", ["x"], None, [], [], ["a"]), "list_out": 3}, _f("g", ["x", "a"], {"x": ["i"]}, ["i"], [], ["c"])]}
 EXTRA = set(EXTRA_PIPES)
 ALL_PIPES = {**PIPES, **EXTRA_PIPES}
 
